@@ -1,21 +1,20 @@
 // Correspondence + oracle harness for C12 (recorded type information obeys its invariants).
 //
-//  * every program (corpus files of the tree under test that type-check, generated XGo programs,
-//    generated Go-compatible programs) is checked with the REAL typesutil.NewChecker(...).Files(...);
-//    oracle on the dumped Info: Defs[id]==nil or at id's position, Uses[id] elsewhere, every node of
-//    Types/Scopes (and Selections/Implicits) inside the checked files;
-//  * Go-compatible programs are also checked by go/types on the same text: every identifier go/types
-//    resolves must be recorded by typesutil with the same object kind, name, type string and
-//    declaration offset;
-//  * the Lean scope model `resolve` is compared with go/types on the linearised function bodies
-//    (driver op "scope").
+//   - every program (corpus files of the tree under test that type-check, generated XGo programs,
+//     generated Go-compatible programs) is checked with the REAL typesutil.NewChecker(...).Files(...);
+//     oracle on the dumped Info: Defs[id]==nil or at id's position, Uses[id] elsewhere, every node of
+//     Types/Scopes (and Selections/Implicits) inside the checked files;
+//   - Go-compatible programs are also checked by go/types on the same text: every identifier go/types
+//     resolves must be recorded by typesutil with the same object kind, name, type string and
+//     declaration offset;
+//   - the Lean scope model `resolve` is compared with go/types on the linearised function bodies
+//     (driver op "scope").
 package main
 
 import (
 	"fmt"
 	goast "go/ast"
 	goparser "go/parser"
-	gotoken "go/token"
 	"go/types"
 	"io"
 	"os"
@@ -444,24 +443,54 @@ func invariants(o *vh.Out, c *checked, origin, caseLine string) {
 // ---- Go-compatible programs: typesutil vs go/types ---------------------------------------
 
 type goChecked struct {
-	file *goast.File
-	info *types.Info
-	errs []string
-	tf   *gotoken.File
+	files []*goast.File
+	info  *types.Info
+	errs  []string
 }
 
-func checkGo(name, src string) (*goChecked, error) {
-	f, err := goparser.ParseFile(fset, name, src, goparser.ParseComments)
-	if err != nil {
-		return nil, err
+// fileStride separates the offsets of the files of one program: global offset = index*fileStride + offset.
+const fileStride = 10000000
+
+// globalOff maps a position to (index of its file in the program)*fileStride + offset; -1 if unknown.
+func globalOff(bases []int, p token.Pos) int {
+	if !p.IsValid() {
+		return -1
 	}
-	g := &goChecked{file: f, tf: fset.File(f.Pos()), info: &types.Info{
+	f := fset.File(p)
+	if f == nil {
+		return -1
+	}
+	for i, b := range bases {
+		if b == f.Base() {
+			return i*fileStride + int(p) - b
+		}
+	}
+	return -1
+}
+
+func (g *goChecked) bases() []int {
+	var bs []int
+	for _, f := range g.files {
+		bs = append(bs, fset.File(f.Pos()).Base())
+	}
+	return bs
+}
+
+func checkGo(names, srcs []string) (*goChecked, error) {
+	g := &goChecked{info: &types.Info{
 		Defs: map[*goast.Ident]types.Object{}, Uses: map[*goast.Ident]types.Object{},
 		Types: map[goast.Expr]types.TypeAndValue{}, Selections: map[*goast.SelectorExpr]*types.Selection{},
 		Implicits: map[goast.Node]types.Object{},
 	}}
+	for i := range names {
+		f, err := goparser.ParseFile(fset, names[i], srcs[i], goparser.ParseComments)
+		if err != nil {
+			return nil, err
+		}
+		g.files = append(g.files, f)
+	}
 	conf := &types.Config{Importer: imp, Error: func(err error) { g.errs = append(g.errs, err.Error()) }}
-	conf.Check("main", fset, []*goast.File{f}, g.info)
+	conf.Check("main", fset, g.files, g.info)
 	return g, nil
 }
 
@@ -474,33 +503,35 @@ func varInitSeesOuter(g *goChecked) bool { return len(varInitOuterIdents(g)) > 0
 func varInitOuterIdents(g *goChecked) map[*goast.Ident]bool {
 	res := map[*goast.Ident]bool{}
 	found := false
-	goast.Inspect(g.file, func(n goast.Node) bool {
-		ds, ok := n.(*goast.DeclStmt)
-		if !ok {
-			return true
-		}
-		gd := ds.Decl.(*goast.GenDecl)
-		for _, sp := range gd.Specs {
-			vs, ok := sp.(*goast.ValueSpec)
+	for _, gf := range g.files {
+		goast.Inspect(gf, func(n goast.Node) bool {
+			ds, ok := n.(*goast.DeclStmt)
 			if !ok {
-				continue
+				return true
 			}
-			names := map[string]bool{}
-			for _, n := range vs.Names {
-				names[n.Name] = true
+			gd := ds.Decl.(*goast.GenDecl)
+			for _, sp := range gd.Specs {
+				vs, ok := sp.(*goast.ValueSpec)
+				if !ok {
+					continue
+				}
+				names := map[string]bool{}
+				for _, n := range vs.Names {
+					names[n.Name] = true
+				}
+				for _, v := range vs.Values {
+					goast.Inspect(v, func(m goast.Node) bool {
+						if id, ok := m.(*goast.Ident); ok && names[id.Name] && g.info.Uses[id] != nil {
+							found = true
+							res[id] = true
+						}
+						return true
+					})
+				}
 			}
-			for _, v := range vs.Values {
-				goast.Inspect(v, func(m goast.Node) bool {
-					if id, ok := m.(*goast.Ident); ok && names[id.Name] && g.info.Uses[id] != nil {
-						found = true
-						res[id] = true
-					}
-					return true
-				})
-			}
-		}
-		return true
-	})
+			return true
+		})
+	}
 	_ = found
 	return res
 }
@@ -513,19 +544,20 @@ func typeStr(t types.Type) string {
 }
 
 func compareWithGo(o *vh.Out, g *goChecked, c *checked, caseLine string) {
-	xf := c.files[0]
-	xtf := fset.File(xf.Pos())
-	off := func(p token.Pos) int {
-		if !p.IsValid() {
-			return -1
-		}
-		f := fset.File(p)
-		if f == nil {
-			return -1
-		}
-		return int(p) - f.Base()
+	// offsets are per program: file i of the Go side corresponds to file i of the XGo side
+	var bases []int
+	bases = append(bases, g.bases()...)
+	gn := len(bases)
+	for _, xf := range c.files {
+		bases = append(bases, fset.File(xf.Pos()).Base())
 	}
-	_ = xtf
+	off := func(p token.Pos) int {
+		v := globalOff(bases, p)
+		if v >= gn*fileStride {
+			v -= gn * fileStride
+		}
+		return v
+	}
 	// XGo identifiers by offset
 	// XGo identifiers by offset, one table per map (an embedded field's identifier is in BOTH maps:
 	// "Defs returns the field *Var it defines", "Uses returns the *TypeName it denotes")
@@ -610,17 +642,19 @@ func compareWithGo(o *vh.Out, g *goChecked, c *checked, caseLine string) {
 	// (agreement of the type strings is counted only: untyped constants are recorded differently)
 	parents := map[goast.Expr]goast.Node{}
 	var stack []goast.Node
-	goast.Inspect(g.file, func(n goast.Node) bool {
-		if n == nil {
-			stack = stack[:len(stack)-1]
+	for _, gf := range g.files {
+		goast.Inspect(gf, func(n goast.Node) bool {
+			if n == nil {
+				stack = stack[:len(stack)-1]
+				return true
+			}
+			if e, ok := n.(goast.Expr); ok && len(stack) > 0 {
+				parents[e] = stack[len(stack)-1]
+			}
+			stack = append(stack, n)
 			return true
-		}
-		if e, ok := n.(goast.Expr); ok && len(stack) > 0 {
-			parents[e] = stack[len(stack)-1]
-		}
-		stack = append(stack, n)
-		return true
-	})
+		})
+	}
 	type key struct{ lo, hi int }
 	xt := map[key]types.TypeAndValue{}
 	for e, tv := range c.info.Types {
@@ -696,9 +730,17 @@ func main() {
 	os.Chdir(repo())
 	setup()
 	runGo := func(seed uint64, idx int) {
-		src, stats := genGoProgram(vh.NewRand(seed).Fork(idx))
+		srcs, stats := genGoProgram(vh.NewRand(seed).Fork(idx))
+		src := strings.Join(srcs, "\n// ---- next file ----\n")
 		line := fmt.Sprintf("goprog\t%d\t%d", seed, idx)
-		g, err := checkGo(fmt.Sprintf("g%d_%d.go", seed, idx), src)
+		var gnames []string
+		xsrcs := map[string]string{}
+		for i, t := range srcs {
+			gnames = append(gnames, fmt.Sprintf("g%d_%d_%c.go", seed, idx, 'a'+i))
+			xsrcs[fmt.Sprintf("x%d_%d_%c.xgo", seed, idx, 'a'+i)] = t // sorted like the Go files
+		}
+		o.Count(fmt.Sprintf("go_program_files_%d", len(srcs)))
+		g, err := checkGo(gnames, srcs)
 		if err != nil {
 			o.Count("gen_go_unparseable")
 			if os.Getenv("C12_DEBUG") != "" {
@@ -716,7 +758,7 @@ func main() {
 		for k, v := range stats {
 			o.Stats[k] += v
 		}
-		c, err := checkXGo(map[string]string{fmt.Sprintf("x%d_%d.xgo", seed, idx): src})
+		c, err := checkXGo(xsrcs)
 		if err != nil {
 			o.Oracle("go-program-rejected-by-xgo-parser", line, err.Error())
 			return
@@ -752,8 +794,8 @@ func main() {
 			var idx int
 			fmt.Sscan(fs[1], &seed)
 			fmt.Sscan(fs[2], &idx)
-			src, _ := genGoProgram(vh.NewRand(seed).Fork(idx))
-			fmt.Println(src)
+			srcs, _ := genGoProgram(vh.NewRand(seed).Fork(idx))
+			fmt.Println(strings.Join(srcs, "\n// ---- next file ----\n"))
 			runGo(seed, idx)
 		case len(fs) == 2 && fs[0] == "corpus":
 			runCorpus(o, filepath.Join(repo(), fs[1]))
